@@ -170,3 +170,11 @@ Section Spec.
       end
     end.
 End Spec.
+
+(* the hypothesis of the model = documented rules theorems (C04_selection_is_documented_precedence_*, C04_route_eq_spec):
+   a directive without a block has no children, at every depth *)
+Fixpoint wf_deepb (fuel : nat) (ns : list node) : bool :=
+  match fuel with
+  | O => false
+  | S f => forallb (fun n => match n with Node _ _ _ blk ch => (blk || match ch with [] => true | _ => false end) && wf_deepb f ch end) ns
+  end.
